@@ -1,6 +1,7 @@
 package props
 
 import (
+	"errors"
 	"fmt"
 
 	ike "github.com/free5gc/ike"
@@ -16,6 +17,9 @@ import (
 )
 
 // shared helpers for the properties about protected (SK) messages: C01, C02, C06, C17
+
+// errNeitherNor: the library returned (nil, nil) - no value and no error - which is never a valid outcome.
+var errNeitherNor = errors.New("DecodeDecrypt returned neither a message nor an error (nil, nil)")
 
 const maxInnerChain = 65400 // keeps 4 + IV + ciphertext + ICV inside the 16-bit payload length
 
@@ -40,6 +44,17 @@ func genKeys(t *rapid.T, s bridge.SuiteSel) bridge.KeySet {
 		k.Ar[0] ^= 0x01
 	}
 	return k
+}
+
+// equalDirections makes the two directions share a key in a fraction of the cases ("for all key values" includes that;
+// only C02's reflection clause needs them distinct).
+func equalDirections(t *rapid.T, in *protIn) {
+	if rapid.IntRange(0, 7).Draw(t, "equal-integ-keys") == 7 {
+		in.Keys.Ar = append(model.Bytes(nil), in.Keys.Ai...)
+	}
+	if rapid.IntRange(0, 7).Draw(t, "equal-encr-keys") == 7 {
+		in.Keys.Er = append(model.Bytes(nil), in.Keys.Ei...)
+	}
 }
 
 func genSuite(t *rapid.T) bridge.SuiteSel {
@@ -108,7 +123,7 @@ func libUnprotect(w []byte, sa *security.IKESAKey, recvI, withHdr bool) (model.M
 		return model.Message{}, err
 	}
 	if dm == nil {
-		return model.Message{}, fmt.Errorf("DecodeDecrypt returned neither a message nor an error")
+		return model.Message{}, errNeitherNor
 	}
 	var got model.Message
 	err = probe.Try(func() error { var e error; got, e = bridge.FromLib(dm); return e })
